@@ -257,6 +257,27 @@ func init() {
 			failShape("interpreter.interpretAll no longer gives the package scope a Copy() of the config")
 		}
 
+		// ---- isinstance (builtins.go): does it look through the frozen wrappers before the type tests?
+		fsetB, fb := parseFile("src/parse/asp/builtins.go")
+		const isinstRest = `var types pyList if l, ok := typesArg.(pyList); ok { types = l } else { types = pyList{typesArg} } ` +
+			`for _, li := range types { if lif, ok := li.(*pyFunc); ok && isType(obj, lif.name) { return True } else if _, ok := obj.(*pyFunc); ok { continue } ` +
+			`else if reflect.TypeOf(obj) == reflect.TypeOf(li) { return True } } if _, ok := obj.(*pyFunc); ok { return False } ` +
+			`return newPyBool(reflect.TypeOf(obj) == reflect.TypeOf(typesArg)) }`
+		isinst := bodyText(fsetB, findFunc(fb, "", "isinstance"))
+		unwraps := ""
+		switch {
+		case isinst == `{ obj := args[0] typesArg := args[1] switch o := obj.(type) { case pyFrozenList: obj = o.pyList case pyFrozenDict: obj = o.pyDict } `+isinstRest:
+			unwraps = "true"
+		case isinst == `{ obj := args[0] typesArg := args[1] `+isinstRest:
+			unwraps = "false"
+		default:
+			failShape("isinstance does not have the shape the C18 model (Model/C18.v isinstance_model) was written from.\n  found: %s", isinst)
+		}
+		matchShape("isType", bodyText(fsetB, findFunc(fb, "", "isType")),
+			`{ switch obj.(type) { case pyBool: return name == "bool" || name == "int" case pyInt: return name == "int" case pyString: return name == "str" `+
+				`case *pyRange: return name == "range" case pyList: return name == "list" case pyDict: return name == "dict" case *pyConfig: return name == "config" `+
+				`case *pyFunc: return name == "callable" } return false }`)
+
 		return "(* src/parse/asp/objects.go (see harness/cmd/gotrans/c18pins.go) *)\n" +
 			"From Coq Require Import List. Import ListNotations.\n" +
 			"(* the `case Add:` clause of pyList.Operator as a decision tree *)\n" +
@@ -265,6 +286,8 @@ func init() {
 			"Definition list_add_tree : add_tree :=\n  " + addTree + ".\n" +
 			"(* what pyConfig.Freeze does, in order *)\n" +
 			"Inductive cfg_freeze_step := FWrapCopy | FFreezeOverlay | FCopyOverlay.\n" +
-			"Definition config_freeze_steps : list cfg_freeze_step := [" + strings.Join(steps, "; ") + "].\n"
+			"Definition config_freeze_steps : list cfg_freeze_step := [" + strings.Join(steps, "; ") + "].\n" +
+			"(* builtins.go isinstance: the frozen wrappers are removed before the type tests *)\n" +
+			"Definition isinstance_unwraps : bool := " + unwraps + ".\n"
 	}
 }
